@@ -4,6 +4,8 @@ import Mathlib.Probability.Distributions.Gamma
 import Mathlib.Probability.Distributions.Gaussian.Real
 import Mathlib.MeasureTheory.Integral.Pi
 import Mathlib.MeasureTheory.Integral.Bochner.Basic
+import Mathlib.MeasureTheory.Measure.Lebesgue.Basic
+import Mathlib.MeasureTheory.Group.Integral
 
 /-!
 # C04 — helper lemmas for the normalisation theorems (`Props/C04_norm.lean`)
@@ -178,5 +180,41 @@ lemma gaussianPDFReal_eq_exp (m v z : ℝ) (hv : 0 < v) :
     ring
   · congr 1
     field_simp
+
+/-- extend a square matrix indexed by `Fin n` to the `ℕ × ℕ`-indexed form the model's folds use -/
+def extMat {n : ℕ} (R : Matrix (Fin n) (Fin n) ℝ) : ℕ → ℕ → ℝ :=
+  fun i j => if h : i < n ∧ j < n then R ⟨i, h.1⟩ ⟨j, h.2⟩ else 0
+
+@[simp] lemma extMat_val {n : ℕ} (R : Matrix (Fin n) (Fin n) ℝ) (i j : Fin n) :
+    extMat R (i : ℕ) (j : ℕ) = R i j := by
+  simp [extMat]
+
+lemma extFin_sub {n : ℕ} (z m : Fin n → ℝ) : (fun i => extFin z i - extFin m i) = extFin (z - m) := by
+  funext i
+  unfold extFin
+  split_ifs <;> simp
+
+/-- the model's `‖R u‖²` fold is the squared norm of the matrix–vector product -/
+lemma normSqR_extMat {n : ℕ} (R : Matrix (Fin n) (Fin n) ℝ) (u : Fin n → ℝ) :
+    normSqR n n (extMat R) (extFin u) = ∑ k, (Matrix.mulVec R u k) ^ 2 := by
+  rw [normSqR_eq, Finset.sum_range]
+  refine Finset.sum_congr rfl fun k _ => ?_
+  rw [Finset.sum_range, ← pow_two]
+  simp only [extMat_val, extFin_val, Matrix.mulVec, dotProduct]
+
+/-! ## linear change of variables on `ℝⁿ` -/
+
+open Matrix in
+lemma integral_comp_mulVec {n : ℕ} (R : Matrix (Fin n) (Fin n) ℝ) (hR : R.det ≠ 0)
+    (g : (Fin n → ℝ) → ℝ) (hg : Measurable g) (m : Fin n → ℝ) :
+    ∫ z : Fin n → ℝ, g (R *ᵥ (z - m)) = |R.det|⁻¹ * ∫ w, g w := by
+  have h1 : ∫ z : Fin n → ℝ, g (R *ᵥ (z - m)) = ∫ z : Fin n → ℝ, g (R *ᵥ z) :=
+    integral_sub_right_eq_self (fun z => g (R *ᵥ z)) m
+  have hmeas : Measurable (toLin' R) := (LinearMap.continuous_on_pi _).measurable
+  have h2 : ∫ z : Fin n → ℝ, g (R *ᵥ z) = ∫ w, g w ∂(Measure.map (toLin' R) volume) := by
+    rw [integral_map hmeas.aemeasurable hg.aestronglyMeasurable]
+    simp only [toLin'_apply]
+  rw [h1, h2, Real.map_matrix_volume_pi_eq_smul_volume_pi hR, integral_smul_measure,
+    ENNReal.toReal_ofReal (abs_nonneg _), abs_inv, smul_eq_mul]
 
 end CuqiVerif.C04
